@@ -375,6 +375,17 @@ func runC07(t *testing.T, tape *sim.Tape, tier string) *Outcome {
 	for _, c := range offenders {
 		budget += 40 * len(c.stream)
 	}
+	// half of the runs with inserted scheduling points: the application registers an executor of its own at a
+	// seed-chosen moment while clients are being served (a goroutine of the application, scheduled like the others;
+	// only in those runs, because there a goroutine waits for a busy lock at a gate instead of blocking on it)
+	if cl.AutoYields && tape.Draw(2, "appregister") == 1 {
+		cl.appCall("app", func() {
+			cl.Srv.RegisterExexutor("XAPPCMD", func(conn *redis.Conn, cmd string, args redis.Arguments) (*redis.Message, error) {
+				return redis.NewStringMessage("app"), nil
+			})
+		})
+		o.stat("runs_with_executor_registered_by_an_application_goroutine", 1)
+	}
 	finished := cl.run(budget, nil, nil)
 	if len(o.Viol) == 0 {
 		if !finished {
@@ -418,7 +429,7 @@ func init() {
 	register(&Check{
 		ID: "C07", Bubble: true, Run: runC07,
 		Runs:   map[string]int{"quick": 20000, "thorough": 600000},
-		Rule:   "a case is one run of the full server (Start, accept loop, connection goroutines) with 1..3 offender connections (in a quarter of the runs the application supplies a TLS configuration that does not require client certificates and offenders may use the TLS port with or without one; boundary-argument commands on a small key pool, ill-formed and unknown commands, odd/null/nested arrays, malformed frames, many-wildcard patterns against a long almost-matching key; ended by idle/half-close/close/reset at a drawn byte), one lock-step witness with exact expected replies and one late-comer, under a seeded interleaving of all deliveries and server goroutines; handler = bundled example store, reference store, or a non-panicking but misbehaving store (nil results, errors, oddly typed replies for the offenders' keys); distinct = distinct event-log hashes; every run has an offender, so all are non-trivial",
+		Rule:   "a case is one run of the full server (Start, accept loop, connection goroutines) with 1..3 offender connections (in a quarter of the runs the application supplies a TLS configuration that does not require client certificates and offenders may use the TLS port with or without one; boundary-argument commands on a small key pool, ill-formed and unknown commands, odd/null/nested arrays, malformed frames, many-wildcard patterns against a long almost-matching key; ended by idle/half-close/close/reset at a drawn byte), one lock-step witness with exact expected replies and one late-comer, under a seeded interleaving of all deliveries and server goroutines; in half of the runs with inserted scheduling points an application goroutine registers an executor while clients are served; handler = bundled example store, reference store, or a non-panicking but misbehaving store (nil results, errors, oddly typed replies for the offenders' keys); distinct = distinct event-log hashes; every run has an offender, so all are non-trivial",
 		Real:   []string{"redis.Server Start/accept loop/connection goroutines/dispatch/executors/parser", "examples/go-redisd/server store (half of the runs)"},
 		Stub:   []string{"network: simulated listener and connections", "handler (other half): reference store", "process isolation: one worker process per shard, a worker death is attributed to its run and replayed alone"},
 		Assume: []string{"the witness uses its own keys and database so that its expected replies do not depend on the offenders"},
